@@ -76,6 +76,12 @@ fn skeleton_key<H: HashChain>(key: &ReferenceImplPrivateKey<H>) -> Option<HssPri
             *parameter.get_lms_parameter(),
         ));
     }
+    // `HssPrivateKey::from` signs every child public key with the parent's current leaf, which
+    // advances the parent's `used_leafs_index` through `use_lmots_private_key`; do the same here.
+    let levels = result.private_key.len();
+    for lms_private_key in result.private_key.iter_mut().take(levels - 1) {
+        lms_private_key.use_lmots_private_key().ok()?;
+    }
     Some(result)
 }
 
